@@ -1,6 +1,9 @@
 /-
   C05 — Defaults and value-source precedence.
 -/
+import GoFlags.Lemmas.AllRefs
+import GoFlags.Props.C01
+import GoFlags.Lemmas.ActivePath
 import GoFlags.Ini
 import GoFlags.Lemmas.Tables
 
@@ -354,4 +357,133 @@ theorem defaults_phase_is_per_option (E : Env) (help : HelpFn) (r : ORef) (rs : 
       simp only at ho hd
       have hag' : AgreeAt r P' P0 := ⟨hd.trans hag.decl, ho.trans hag.opt, hd.symm.valid r hag.validP, hag.validQ⟩
       cases e <;> (simp only; exact ih _ P0 l0 hnd' hm' hag')
+
+/-! ### End to end: the whole of `ParseArgs` on a command line that does not name the option -/
+
+/-- **An option that does not occur on the command line ends with the value of its own
+    highest-ranked source — through the whole parse.**  For a command line of any length made of
+    occurrences of OTHER options (whatever they are, however often): after the argument loop, the
+    defaults phase over every option of the parser and the required check, the option holds
+    exactly what `clearDefault` makes of ITS record as the parse found it — its environment
+    variable when set, else its default tags, else what the program stored — untouched by every
+    occurrence and by the defaults of every other option. -/
+theorem option_that_does_not_occur_ends_with_its_own_sources (E : Env) (help : HelpFn) (P : Parser)
+    (items : List Occ) (r0 : ORef) (l0 : List Event)
+    (hok : ∀ it ∈ items, OccOK P 0 it)
+    (hno : ∀ it ∈ items, P.lookupLong 0 it.1 ≠ some r0)
+    (hv : r0.valid P)
+    (hres : (applyOccs E help (({ P := P, args := renderOccs items } : PS).fill 0) items).2 = none) :
+    (parsePhase E help P (renderOccs items)).P.opt r0 = (optClearDefault E help P r0 l0).1.opt r0 := by
+  unfold parsePhase
+  simp only
+  have hlen : (renderOccs items).length = items.length := by simp [renderOccs]
+  have hloop := C01.parseLoop_of_occurrences E help items (4 * (renderOccs items).length + 16)
+    (({ P := P, args := renderOccs items } : PS).fill 0) (by rw [hlen]; omega) rfl hok hres
+  rw [hloop]
+  obtain ⟨hP, _, _, _, herr⟩ := C01.applyOccs_is_setAll E help items (({ P := P, args := renderOccs items } : PS).fill 0) hok hres
+  generalize (applyOccs E help (({ P := P, args := renderOccs items } : PS).fill 0) items).1 = s1 at hP herr
+  have herr' : s1.err = none := by rw [herr]; rfl
+  simp only [herr', Option.isNone_none, if_true]
+  rw [(checkRequired_act _).1]
+  have hP' : s1.P = (setAll E help 0 P [] items).1 := hP
+  have hdecl : SameDecl s1.P P := by rw [hP']; exact setAll_decl E help 0 items P []
+  have hopt : s1.P.opt r0 = P.opt r0 := by
+    rw [hP']; exact C01.options_not_named_are_untouched E help 0 r0 items P [] hno
+  have hv1 : r0.valid s1.P := hdecl.symm.valid r0 hv
+  exact defaults_phase_is_per_option E help r0 s1.P.allORefs s1 P l0 (Parser.allORefs_nodup _)
+    ((Parser.mem_allORefs _ _).mpr hv1) ⟨hdecl, hopt, hv1, hv⟩
+
+/-- an option that some occurrence of the line names — or that was closed before — is closed when
+    the line has been read -/
+theorem applyOccs_closes_named (E : Env) (help : HelpFn) (r0 : ORef) (items : List Occ) :
+    ∀ s : PS, (∀ it ∈ items, OccOK s.P s.cmd it) → (applyOccs E help s items).2 = none → r0.valid s.P →
+      ((∃ it ∈ items, s.P.lookupLong s.cmd it.1 = some r0) ∨ (s.P.opt r0).preventDefault = true) →
+      ((applyOccs E help s items).1.P.opt r0).preventDefault = true := by
+  induction items with
+  | nil =>
+    intro s _ _ _ h
+    rcases h with ⟨it, hit, _⟩ | h
+    · simp at hit
+    · simpa [applyOccs] using h
+  | cons it rest ih =>
+    intro s hok hres hv hnamed
+    obtain ⟨ht, r, hl, hc⟩ := hok it (by simp)
+    unfold applyOccs at hres ⊢
+    let s0 : PS := { s with arg := longToken it.1 it.2, args := renderOccs rest }
+    have hk := parseLong_keeps E help s0 it.1 it.2 (by
+      cases h2 : it.2 with
+      | some V => left; rfl
+      | none =>
+        right; intro r' hr'
+        have : s0.P.lookupLong s0.cmd it.1 = some r := hl
+        rw [this] at hr'; cases hr'; exact hc h2)
+    have hacc := fun h => parseLong_accepted E help s0 it.1 it.2 r hl hc h
+    change (match parseLong E help s0 it.1 it.2 with | (s', none) => applyOccs E help s' rest | (s', some e) => (s', some e)).2 = none at hres
+    change ((match parseLong E help s0 it.1 it.2 with | (s', none) => applyOccs E help s' rest | (s', some e) => (s', some e)).1.P.opt r0).preventDefault = true
+    generalize hpl : parseLong E help s0 it.1 it.2 = res at hk hres hacc ⊢
+    obtain ⟨s', e⟩ := res
+    cases e with
+    | some e => simp at hres
+    | none =>
+      simp only at hres hk hacc ⊢
+      obtain ⟨v, _, _, hs'⟩ := hacc trivial
+      have hs'P : s'.P = (optSet E help s.P r v s.log).1 := by rw [hs']
+      have hdecl : SameDecl s'.P s.P := hk.decl
+      have hok' : ∀ it' ∈ rest, OccOK s'.P s'.cmd it' := by
+        intro it' hit'
+        rw [hk.cmd]
+        exact OccOK_of_sameDecl hdecl.symm _ _ (hok it' (by simp [hit']))
+      have hv' : r0.valid s'.P := hdecl.symm.valid r0 hv
+      apply ih s' hok' hres hv'
+      by_cases hr : r = r0
+      · right; rw [hs'P, hr]; exact occurrence_closes_option E help s.P r0 hv v s.log
+      · have hsame : s'.P.opt r0 = s.P.opt r0 := by
+          rw [hs'P]; exact C01.set_touches_only_its_option E help s.P r r0 v s.log hr
+        rcases hnamed with ⟨it', hit', hl'⟩ | hclosed
+        · rcases List.mem_cons.mp hit' with rfl | hin
+          · rw [hl] at hl'; cases hl'; exact absurd rfl hr
+          · left; exact ⟨it', hin, by rw [hk.cmd, hdecl.lookupLong]; exact hl'⟩
+        · right; rw [hsame]; exact hclosed
+
+/-- **An option that does occur ignores every other source — through the whole parse.**  For a
+    command line of any length of option occurrences: an option that one of them names leaves the
+    parse (argument loop, defaults phase over ALL options, required check) holding exactly what
+    its occurrences stored — no environment variable, default tag or stored value is consulted
+    for it any more. -/
+theorem option_that_occurs_keeps_what_its_occurrences_stored (E : Env) (help : HelpFn) (P : Parser)
+    (items : List Occ) (r0 : ORef)
+    (hok : ∀ it ∈ items, OccOK P 0 it)
+    (hnamed : ∃ it ∈ items, P.lookupLong 0 it.1 = some r0)
+    (hv : r0.valid P)
+    (hres : (applyOccs E help (({ P := P, args := renderOccs items } : PS).fill 0) items).2 = none) :
+    (parsePhase E help P (renderOccs items)).P.opt r0 = (setAll E help 0 P [] items).1.opt r0 := by
+  unfold parsePhase
+  simp only
+  have hlen : (renderOccs items).length = items.length := by simp [renderOccs]
+  have hloop := C01.parseLoop_of_occurrences E help items (4 * (renderOccs items).length + 16)
+    (({ P := P, args := renderOccs items } : PS).fill 0) (by rw [hlen]; omega) rfl hok hres
+  rw [hloop]
+  obtain ⟨hP, _, _, _, herr⟩ := C01.applyOccs_is_setAll E help items (({ P := P, args := renderOccs items } : PS).fill 0) hok hres
+  have hclosed := applyOccs_closes_named E help r0 items (({ P := P, args := renderOccs items } : PS).fill 0) hok hres hv (Or.inl hnamed)
+  generalize (applyOccs E help (({ P := P, args := renderOccs items } : PS).fill 0) items).1 = s1 at hP herr hclosed
+  have herr' : s1.err = none := by rw [herr]; rfl
+  simp only [herr', Option.isNone_none, if_true]
+  rw [(checkRequired_act _).1, closed_option_survives_defaults_phase E help r0 _ s1 hclosed]
+  have hP' : s1.P = (setAll E help 0 P [] items).1 := hP
+  rw [hP']
+
+/-! non-vacuity: `--v` on a parser with the flag `--v` and a string option `--name` that declares
+    `default:"d"`: every hypothesis holds, and `--name` ends with "d" -/
+def exP : Parser := { cmds := [{ groups := [{ opts := [{ long := B "v", ty := .sc .bool },
+  { long := B "name", ty := .sc .str, val := .sc (.str []), dflt := [B "d"] }] }] }] }
+def exOccs : List Occ := [(B "v", none)]
+example : ∀ it ∈ exOccs, OccOK exP 0 it := by
+  intro it h; simp [exOccs] at h; subst h
+  exact ⟨⟨by decide, by decide, by decide⟩, ⟨0, 0, 0⟩, by decide, fun _ => by decide⟩
+example : ∀ it ∈ exOccs, exP.lookupLong 0 it.1 ≠ some ⟨0, 0, 1⟩ := by
+  intro it h; simp [exOccs] at h; subst h; decide
+example : (⟨0, 0, 1⟩ : ORef).valid exP := by unfold ORef.valid; decide
+example : (applyOccs default (fun _ => []) (({ P := exP, args := renderOccs exOccs } : PS).fill 0) exOccs).2 = none := by decide
+example : ((parsePhase default (fun _ => []) exP (renderOccs exOccs)).P.opt ⟨0, 0, 1⟩).val = .sc (.str (B "d")) := by decide
+
 end GoFlags.C05
